@@ -256,7 +256,9 @@ var iniSimpleRules = []lexer.SimpleRule{
 	{Name: "whitespace", Pattern: `\s+`},
 }
 
-var lexDefs = []*lexDef{
+var lexDefs = append(append([]*lexDef{}, coreLexDefs...), exampleLexDefs...)
+
+var coreLexDefs = []*lexDef{
 	{name: "heredoc", rules: heredocRules, delims: true, build: func() lexer.Definition { return mustRules(heredocRules()) },
 		corpus: []string{"\n\t<<{D0}\n\thello world\n\t{D0}\n", "x = \"s\"; # c\n<<{D0} a b c {D0};\n<<{D1}\n  {D0} words über {D2}\n{D1}\nlast = \"q\\\"q\"\n", "<<{D0} a <<{D1} b {D0} c", ""}},
 	{name: "conformance", rules: conformanceRules, genName: "Conformance", build: func() lexer.Definition { return mustRules(conformanceRules()) },
@@ -314,7 +316,7 @@ func emitFixturesMain(args []string) {
 		os.Exit(2)
 	}
 	var names []string
-	for _, d := range lexDefs {
+	for _, d := range coreLexDefs {
 		if d.genName == "" || d.rules == nil {
 			continue
 		}
